@@ -2,21 +2,23 @@ package eventbus
 
 import "context"
 
-//verif:entry property=C01 tier=both bounds="re-entrancy: n<=N plain handlers of one type (plus one of another type); all of them Once handlers or none; during a publish, handler k performs ONE operation out of {subscribe same type, subscribe other type, unsubscribe handler j, clear, clear-all, nested publish same type, nested publish other type, nothing} and then queries HasHandlers/HandlerCount of both types; deliveries of the running publish = snapshot at its start" cover="reentrant-done" N_quick=3 N_thorough=3
+//verif:entry property=C01 tier=both bounds="re-entrancy: n<=N plain handlers of one type (plus one of another type); each of them a Once handler or not (symbolic); during a publish, handler k performs ONE operation out of {subscribe same type, subscribe other type, unsubscribe handler j, clear, clear-all, nested publish same type, nested publish other type, nothing} and then queries HasHandlers/HandlerCount of both types; deliveries of the running publish = snapshot at its start" cover="reentrant-done" N_quick=3 N_thorough=3
 func harnessC01Reentrant() {
 	N := vParam("N", 3)
 	c01Log, c01Re = nil, nil
 	bus := New()
 	m := &c01Model{}
 	n := vInt(1, N)
-	allOnce := vBool() // every handler of the type is a Once handler
+	allOnce := false // some handler of the type is a Once handler (each one's flag is symbolic)
 	for i := 0; i < n; i++ {
-		if allOnce {
+		once := vBool()
+		if once {
+			allOnce = true
 			vAssert(Subscribe(bus, c01HA[i], Once()) == nil, "subscribe-ok")
 		} else {
 			vAssert(Subscribe(bus, c01HA[i]) == nil, "subscribe-ok")
 		}
-		m.subscribe(0, &c01Reg{id: i, once: allOnce})
+		m.subscribe(0, &c01Reg{id: i, once: once})
 	}
 	vAssert(Subscribe(bus, c01HB[0]) == nil, "subscribe-ok")
 	m.subscribe(1, &c01Reg{id: 0})
@@ -89,7 +91,7 @@ func harnessC01Reentrant() {
 					inSnap = true
 				}
 			}
-			if !inSnap {
+			if !inSnap || !r.once {
 				keep = append(keep, r)
 			}
 		}
